@@ -69,6 +69,9 @@ func checkC05(c *Ctx) {
 		// strict mode: error return mentioning monophyly  <=>  !monophyletic && strict
 		c.strictGuard(fi)
 		c.uniqueRootBranch(fi)
+		if lca := c.Func("tree", "Tree", "LeastCommonAncestorRecur"); lca != nil {
+			c.accumAgree("ACCUM", lca, "a non-monophyletic outgroup is refused in strict mode (whatever the order of the children)")
+		}
 	}
 
 	// ---- RerootMidPoint
@@ -232,6 +235,31 @@ func (c *Ctx) mergeForms(fi *FuncInfo, name string, posSupport bool) {
 			}
 		}
 		c.Check(good, "LF", key, sc.call.Pos(), "merged length = "+p.String(), "merged branch gets length "+p.String()+", property requires pos(l1)+pos(l2) of the two merged branches").Clause = "lengths added (absent counted as 0), support = max"
+		if good {
+			// written iff at least one of the two lengths is present
+			t0 := strings.TrimSuffix(strings.TrimPrefix(ats[0], "pos("), ")")
+			t1 := strings.TrimSuffix(strings.TrimPrefix(ats[1], "pos("), ")")
+			conds, okc := c.pathConds(info, fi.Decl.Body, sc.call, false)
+			var rel []cond
+			for _, cd := range conds {
+				if cd.Expr == nil {
+					continue
+				}
+				k := c.canon(info, cd.Expr, env.o)
+				if strings.Contains(k, "length") || strings.Contains(k, t0) || strings.Contains(k, t1) {
+					rel = append(rel, cd)
+				}
+			}
+			code := c.condsToBexpr(info, rel, env.o)
+			spec := bOr(bCmp(t0, token.NEQ, "NIL_LENGTH"), bCmp(t1, token.NEQ, "NIL_LENGTH"))
+			eq, wit, _, err := gfEquiv(code, spec)
+			gk := name + "/" + sc.recv + ".SetLength-guard"
+			if !okc || err != nil {
+				c.Undecided("GF", gk, sc.call.Pos(), fmt.Sprintf("guard shape not understood: %v", err))
+			} else {
+				c.Check(eq, "GF", gk, sc.call.Pos(), "merged length written iff one of the two lengths is present", "the merged length is written under "+code.String()+", expected "+spec.String()+" (a sum of two zero-length branches is a present length 0, not an absent one): "+wit).Clause = "the two root branches of a rooted tree counting as one branch"
+			}
+		}
 	}
 	if nl == 0 {
 		c.Violation("LF", name+"/merged-length", fi.Decl.Pos(), "no SetLength of the merged branch found: the summed length is lost").Clause = "lengths added"
